@@ -453,6 +453,10 @@ class Inliner(object):
             hdr = st.test if isinstance(st, (ast.If, ast.While)) else (st.iter if isinstance(st, ast.For) else None)
             if hdr is None:
                 return None
+            if isinstance(st, ast.For):
+                fused = self._fuse_generator(st, table, methods, where)
+                if fused is not None:
+                    return fused
             new = self._expr_level(hdr, table, methods, where)
             if new is None and isinstance(st, ast.For) and isinstance(hdr, ast.Call) and self._resolve(hdr, table, methods)[0] is not None:
                 # for x in helper(..):  ->  tmp = <helper body>; for x in tmp:
@@ -601,6 +605,63 @@ class Inliner(object):
             holder.value = tmp
         pre = _as_statements(body, ast.Name(id=tmp.id, ctx=ast.Store()), False)
         return done(pre + [st])
+
+    def _fuse_generator(self, st, table, methods, where):
+        """`for T in G(args): BODY` with G a new generator helper of the form `pre; for x in it: stmts; yield v`, or
+        `for T in (v for x in it if c): BODY`  ->  the producer loop with `T = v; BODY` in place of the yield.  Sound because the
+        yield is the last statement of the only loop and nothing follows the loop: `break` / `continue` / `else` of the consumer
+        mean the same on the producer loop."""
+        hdr = st.iter
+        loc = lambda nodes: [self._loc(x, st) for x in nodes]  # noqa: E731
+        if isinstance(hdr, ast.GeneratorExp) and len(hdr.generators) == 1 and not getattr(hdr.generators[0], 'is_async', 0):
+            g = hdr.generators[0]
+            self.counter += 1
+            names = sorted({x.id for x in ast.walk(g.target) if isinstance(x, ast.Name)})
+            env = {n_: ast.Name(id='__g{}_{}'.format(self.counter, n_), ctx=ast.Load()) for n_ in names}
+            tgt = _subst(g.target, env)
+            for x in ast.walk(tgt):
+                if isinstance(x, (ast.Name, ast.Tuple, ast.List)):
+                    x.ctx = ast.Store()
+            body = [ast.Assign(targets=[st.target], value=_subst(hdr.elt, env))] + list(st.body)
+            for c_ in reversed(g.ifs):
+                body = [ast.If(test=_subst(c_, env), body=body, orelse=[])]
+            newfor = ast.For(target=tgt, iter=g.iter, body=body, orelse=list(st.orelse))
+            loc([newfor])
+            self.log.append('{}: loop over a generator expression at line {} fused with its consumer'.format(where, getattr(st, 'lineno', '?')))
+            return [newfor]
+        if not (isinstance(hdr, ast.Call) and self._resolve(hdr, table, methods)[0] is not None):
+            return None
+        fd, is_m = self._resolve(hdr, table, methods)
+        body = [s_ for s_ in fd.body if not (isinstance(s_, ast.Expr) and isinstance(s_.value, ast.Constant))]
+        ys = [x for x in ast.walk(fd) if isinstance(x, (ast.Yield, ast.YieldFrom))]
+        if len(ys) != 1 or not isinstance(ys[0], ast.Yield) or ys[0].value is None or not body or _has(fd, (ast.Return,)):
+            return None
+        lp = body[-1]
+        if not (isinstance(lp, ast.For) and not lp.orelse and lp.body and isinstance(lp.body[-1], ast.Expr) and lp.body[-1].value is ys[0]):
+            return None
+        if any(isinstance(x, (ast.For, ast.While, ast.Try, ast.With)) for s_ in body[:-1] for x in ast.walk(s_)):
+            return None
+        self.counter += 1
+        keep = _locals_of(fd) - self.caller_names
+        env = _param_env(fd, hdr, is_m, self.counter, keep)
+        if env is None:
+            return None
+        pre_stmts = env.pop('__pre__')
+        pre = pre_stmts + _flat([_subst(s_, env) for s_ in body[:-1]])
+        tgt = _subst(lp.target, env)
+        inner = _flat([_subst(s_, env) for s_ in lp.body[:-1]]) + [ast.Assign(targets=[st.target], value=_subst(ys[0].value, env))] + list(st.body)
+        newfor = ast.For(target=tgt, iter=_subst(lp.iter, env), body=inner, orelse=list(st.orelse))
+        loc(pre + [newfor])
+        self.log.append('{}: loop over new generator {}() at line {} fused with its consumer'.format(where, fd.name, getattr(st, 'lineno', '?')))
+        return pre + [newfor]
+
+    def _loc(self, node, like):
+        for x in ast.walk(node):
+            if not hasattr(x, 'lineno'):
+                x.lineno, x.col_offset, x.end_lineno, x.end_col_offset = getattr(like, 'lineno', 0), 0, getattr(like, 'lineno', 0), 0
+            if getattr(x, 'src_file', None) is None:
+                x.src_file = getattr(like, 'src_file', None)
+        return node
 
     def _expr_level(self, node, table, methods, where):
         """replaces, inside node, every call of a new helper whose body is an expression; returns the new node or None"""
